@@ -449,6 +449,83 @@ fn picky_writer_cases<T: serde::Serialize>(t: &mut Tctx, what: &str, v: &T, plai
     }
 }
 
+/// Types that ask for the OWNED form of a byte / text payload (`deserialize_byte_buf`, `deserialize_string`:
+/// CString, a ByteBuf-like type, String) through the reader flavours at every scratch size: decoding succeeds
+/// exactly when the scratch holds the payload, returns the whole value, and leaves the reader right behind the
+/// message so that the next one can be read.
+fn owned_payload_lane(t: &mut Tctx) {
+    use crate::corpus::OwnedBytes;
+    let n = t.cfg.scale(2, 300, 6000);
+    for _ in 0..n {
+        if t.cfg.expired() {
+            break;
+        }
+        let len = *t.rng.pick(&[0usize, 1, 2, 3, 7, 16, 40]);
+        let payload: Vec<u8> = (0..len).map(|_| 1 + (t.rng.next() % 120) as u8).collect(); // no NUL, ASCII: valid for CString and String
+        let msg = spec::encode(&Val::Bytes(payload.clone()));
+        let mut stream = msg.clone();
+        stream.extend_from_slice(&msg);
+        let sched = schedules(&mut t.rng)[(len % 3) as usize];
+        for scratch_len in 0..=len + 2 {
+            for eio in [false, true] {
+                t.st.eval();
+                t.st.count("owned_payload_reader_cases");
+                t.st.nontrivial(fp_mix(fp(&msg), (scratch_len as u64) << 1 | eio as u64));
+                let r = catch(|| -> Result<(bool, bool, bool, usize), postcard::Error> {
+                    // three target types on three fresh readers over the same two-message stream
+                    let run = |which: u8| -> Result<(bool, usize), postcard::Error> {
+                        let mut scratch = vec![0u8; scratch_len];
+                        if eio {
+                            let rd = EioEnd(Endpoint::reader(&stream, sched, Fault::None));
+                            match which {
+                                0 => postcard::from_eio::<std::ffi::CString, _>((rd, &mut scratch[..])).map(|(v, (r, _))| (v.as_bytes() == &payload[..], r.0.pos)),
+                                1 => postcard::from_eio::<OwnedBytes, _>((rd, &mut scratch[..])).map(|(v, (r, _))| (v.0 == payload, r.0.pos)),
+                                _ => postcard::from_eio::<String, _>((rd, &mut scratch[..])).map(|(v, (r, _))| (v.as_bytes() == &payload[..], r.0.pos)),
+                            }
+                        } else {
+                            let rd = StdEnd(Endpoint::reader(&stream, sched, Fault::None));
+                            match which {
+                                0 => postcard::from_io::<std::ffi::CString, _>((rd, &mut scratch[..])).map(|(v, (r, _))| (v.as_bytes() == &payload[..], r.0.pos)),
+                                1 => postcard::from_io::<OwnedBytes, _>((rd, &mut scratch[..])).map(|(v, (r, _))| (v.0 == payload, r.0.pos)),
+                                _ => postcard::from_io::<String, _>((rd, &mut scratch[..])).map(|(v, (r, _))| (v.as_bytes() == &payload[..], r.0.pos)),
+                            }
+                        }
+                    };
+                    let a = run(0)?;
+                    let b = run(1)?;
+                    let c = run(2)?;
+                    Ok((a.0, b.0, c.0, if a.1 == b.1 && b.1 == c.1 { a.1 } else { usize::MAX }))
+                });
+                let rp = || vec![kv("kind", "c11-owned-payload"), kv("payload", hex(&payload)), kv("scratch", scratch_len.to_string()), kv("adapter", if eio { EIO_VERSION } else { "std::io" })];
+                match (r, scratch_len >= len) {
+                    (Err(p), _) => {
+                        t.st.violation("C11:reader-panic", format!("owned payload of {} bytes, scratch {}: panicked: {}", len, scratch_len, p), rp());
+                        return;
+                    }
+                    (Ok(Ok((true, true, true, pos))), true) if pos == msg.len() => t.st.count("owned_payload_ok"),
+                    (Ok(Err(_)), false) => t.st.count("owned_payload_scratch_too_small_rejected"),
+                    (Ok(other), fits) => {
+                        t.st.violation(
+                            "C11:owned-payload-through-reader-differs",
+                            format!(
+                                "CString / byte buffer / String of {} bytes through {} with {} bytes of scratch ({}): got {:?}, expected {}",
+                                len,
+                                if eio { EIO_VERSION } else { "std::io" },
+                                scratch_len,
+                                if fits { "enough" } else { "too small" },
+                                other.map_err(|e| err_label(&e)),
+                                if fits { format!("the values with the reader at {}", msg.len()) } else { "an error".to_string() }
+                            ),
+                            rp(),
+                        );
+                        return;
+                    }
+                }
+            }
+        }
+    }
+}
+
 fn picky_lane(t: &mut Tctx) {
     let n = t.cfg.scale(2, 300, 6000);
     for i in 0..n {
@@ -809,6 +886,14 @@ pub fn run(cfg: &Cfg) -> Report {
     if let Some(p) = &cfg.replay {
         let m = read_replay(p).unwrap_or_default();
         let s = parallel(&Cfg { threads: 1, ..cfg.clone() }, 9, |t| {
+            if m.get("kind").map(|s| s.as_str()) == Some("call-sequence") {
+                call_sequences_lane(t, "C11");
+                return;
+            }
+            if m.get("kind").map(|s| s.as_str()) == Some("c11-owned-payload") {
+                owned_payload_lane(t);
+                return;
+            }
             if m.get("kind").map(|s| s.as_str()) == Some("c11-picky") {
                 // the pieces of a formatted text are not recoverable from its encoding: the lane is re-run
                 picky_lane(t);
@@ -892,9 +977,15 @@ pub fn run(cfg: &Cfg) -> Report {
         }
     });
     rep.stats.merge(s);
-    let s = parallel(cfg, 2, |t| picky_lane(t));
+    let s = parallel(cfg, 2, |t| {
+        picky_lane(t);
+        call_sequences_lane(t, "C11");
+        owned_payload_lane(t);
+    });
     rep.stats.merge(s);
     rep.floor("picky_writer_refusals", 100);
+    rep.floor("owned_payload_ok", 50);
+    rep.floor("owned_payload_scratch_too_small_rejected", 50);
     rep.rule = format!(
         "cases = (value, adapter, schedule, fault, scratch size, placement): random-shape values (borrow-heavy shapes over-represented); adapters std::io and {}; schedules 1-byte, random short, whole; \
          writer failure at EVERY byte offset 0..L+1 (plus flush failure, Interrupted), reader failure and EOF at every offset, scratch sizes 0..required+1 with the scratch flush against a guard page on either side; \
